@@ -28,6 +28,7 @@ import (
 	"mime"
 	"mime/multipart"
 	"net/http"
+	"net/http/httputil"
 	"net/url"
 	"strings"
 	"sync"
@@ -775,9 +776,16 @@ func postData(req *http.Request, logBody bool) (*PostData, error) {
 		return nil, err
 	}
 
-	br, err := mv.BodyReader()
+	rc, err := mv.BodyReader()
 	if err != nil {
 		return nil, err
+	}
+
+	// The snapshot keeps the chunk framing of a chunked upload; the post data is
+	// the body without it (and with its content coding untouched).
+	var br io.Reader = rc
+	if tec := len(req.TransferEncoding); tec > 0 && req.TransferEncoding[tec-1] == "chunked" {
+		br = httputil.NewChunkedReader(rc)
 	}
 
 	switch mt {
